@@ -5,7 +5,7 @@ import QExPy.Model.UnitParse
 namespace QExPy.Drv
 open Lean QExPy QExPy.U
 
-def getRat (n d : Json) : R Rat := do
+private def getRat (n d : Json) : R Rat := do
   let n ← n.getInt?
   let d ← d.getNat?
   if d = 0 then throw "zero denominator" else pure (mkRat n d)
